@@ -58,6 +58,8 @@ def gen_cases(tier, seed):
             "triple_sample": None if tier == "thorough" else 1500,
             "seed": r.randrange(1 << 30)
         }
+    for i, (fa, fb, T) in enumerate([("ParaHydrogen", "Hydrogen", 20.0), ("HeavyWater", "Water", 300.0), ("Ethanol", "Methanol", 300.0), ("n-Hexane", "n-Heptane", 300.0)] * (1 if tier == "quick" else 6)):
+        yield {"kind": "samename", "fluids": [fa, fb], "T": T + (i // 4) * 3.5, "seed": r.randrange(1 << 30)}
     for i in range(4 if tier == "quick" else 60):
         yield {
             "kind": "material",
@@ -309,6 +311,44 @@ def _run_loading(case, ctx):
                               direct=ac,
                               material=m)
         ctx.count("triples", "loading", n)
+
+
+def _run_samename(case, ctx):
+    """The conversion uses the densities of the adsorbate object it is handed: two objects that share a name (a user's own
+    'solvent' re-created on another backend fluid; para- and normal hydrogen) are two adsorbates, in whatever order they are used."""
+    import pygaps
+    from pygaps.units.converter_mode import c_loading
+    from pygaps.units.converter_mode import c_pressure
+    T = case["T"]
+    r = gen.rng(case["seed"], "sn")
+    objs = [pygaps.Adsorbate("verif-same-name", store=False, backend_name=f) for f in case["fluids"]]
+    fls = [RU.fluid(f) for f in case["fluids"]]
+    pairs = [(("mass", "g"), ("volume_liquid", "cm3")), (("volume_liquid", "cm3"), ("mass", "mg")), (("molar", "mmol"), ("volume_liquid", "cm3")), (("molar", "mmol"), ("volume_gas", "cm3")),
+             (("mass", "g"), ("volume_gas", "cm3")), (("mass", "g"), ("molar", "mmol")), (("volume_liquid", "cm3"), ("volume_gas", "cm3"))]
+    order = [0, 1, 0, 1] if r.random() < 0.5 else [1, 0, 1, 0]
+    for which in order:
+        ads, fl = objs[which], fls[which]
+        for a, b in pairs:
+            try:
+                f = RU.loading_factor(a[0], a[1], b[0], b[1], fl, T, "mass", "g")
+            except Exception:
+                ctx.count("reference_unavailable", "samename")
+                continue
+            st, got = _call(c_loading, 0.37, a[0], b[0], a[1], b[1], ads, T, "mass", "g")
+            ctx.case(["samename", "loading", a, b, case["fluids"][which], T, tuple(order)])
+            ctx.count("same_name_objects", "c_loading/%s->%s" % (a[0], b[0]))
+            if st != "ok" or not close(float(got), 0.37 * f, 1e-7):
+                ctx.violation("c_loading/same-name-objects/%s" % _bk(a, b), "the factor is not the one of the adsorbate object that was passed (another object of the same name was used before)", fluid=case["fluids"][which],
+                              other=case["fluids"][1 - which], T=T, got=got, expected=0.37 * f, order=order)
+        try:
+            f = RU.pressure_factor("relative", None, "absolute", "bar", fl, T)
+            st, got = _call(c_pressure, 0.37, "relative", "absolute", None, "bar", ads, T)
+            ctx.case(["samename", "pressure", case["fluids"][which], T, tuple(order)])
+            ctx.count("same_name_objects", "c_pressure/relative->absolute")
+            if st != "ok" or not close(float(got), 0.37 * f, 1e-7):
+                ctx.violation("c_pressure/same-name-objects", "the saturation pressure is not the one of the adsorbate object that was passed", fluid=case["fluids"][which], T=T, got=got, expected=0.37 * f)
+        except Exception:
+            ctx.count("reference_unavailable", "samename-pressure")
 
 
 class _Mat:
